@@ -239,16 +239,15 @@ Proof.
         assert (Hc2 : exists c2, hp (wr m1 a1 fk) a1 = Some c2 /\ c_dirty c2 = true /\ c_mv c2 = None /\ c_sv c2 = c_sv c).
         { rewrite (wr_some _ _ _ _ Hc1). simpl. rewrite upd_eq. eexists. split; [reflexivity|]. simpl. auto. }
         destruct Hc2 as (c2 & Hc2 & Hd2 & Hm2 & Esv2).
-        destruct (handle_deletion H rt (wr m1 a1 fk) a1 pk) as [m3 b] eqn:Ehd.
-        destruct (handle_deletion_spec H g rt m t _ a1 pk sv mbh isb _ pk m3 b Hp Hq3 Ehd) as (Tnp & <- & Hqnp).
-        destruct (handle_deletion_keeps m t _ a1 pk sv mbh isb _ pk m3 _ Hp Hq3 Hrt' Ehd) as (Hq4 & Ea4).
         assert (Hvd : (1 <= vd + d)%N) by lia.
         destruct ((match oroot onk with None => S nilc | Some _ => nilc end =? 16) && negb (is_some (c_sv c))).
         { intros E. injection E as <- <- <-. right. split; auto. left. split; auto. eapply post_gone; eauto. }
         destruct (N.eqb_spec (limit - d) 0) as [El|El].
-        { intros E. injection E as <- <- <-. right. split; auto. right. eauto. }
-        intros E. eapply (IH (S i) m3 (set_nth i onk ks)); try exact E; auto.
-        -- exists c2. rewrite Ea4. auto.
+        { destruct (handle_deletion H rt (wr m1 a1 fk) a1 pk) as [m3 b] eqn:Ehd.
+          destruct (handle_deletion_spec H g rt m t _ a1 pk sv mbh isb _ pk m3 b Hp Hq3 Ehd) as (Tnp & <- & Hqnp).
+          intros E. injection E as <- <- <-. right. split; auto. right. eauto. }
+        intros E. eapply (IH (S i) (wr m1 a1 fk) (set_nth i onk ks)); try exact E; auto.
+        -- exists c2. auto.
         -- intros j k Hj Ej. rewrite nth_set_nth_neq in Ej by lia. apply (Hdep j k); auto; lia.
     + (* no child at this index *)
       intros E. eapply (IH (S i) mk ks); try exact E; auto.
